@@ -72,17 +72,30 @@ class Shadow:
     pc = []
 
 
+def _small(e, limit=120):
+    """fewer than `limit` nodes (bounded traversal: the tree of a shared expression DAG can be astronomically large)"""
+    try:
+        for i, _ in enumerate(sp.preorder_traversal(e)):
+            if i >= limit:
+                return False
+    except Exception:  # noqa: BLE001
+        return False
+    return True
+
+
 def _truth(c):
     """decide a sympy Boolean: True/False, or None if it depends on symbols (and no shadow point is active)"""
     if c is sp.true or c is True:
         return True
     if c is sp.false or c is False:
         return False
-    c2 = sp.simplify(c) if not isinstance(c, (bool,)) else c
-    if c2 is sp.true:
-        return True
-    if c2 is sp.false:
-        return False
+    if Shadow.point is None or _small(c):
+        # (large predicates are decided at the shadow point directly: simplifying them can take minutes)
+        c2 = sp.simplify(c) if not isinstance(c, (bool,)) else c
+        if c2 is sp.true:
+            return True
+        if c2 is sp.false:
+            return False
     if Shadow.point is not None:
         v = c.subs(Shadow.point)
         try:
